@@ -1,9 +1,118 @@
 import Driver.Json
-open Lean Drv
+import Model.Store
+open Lean Drv Ens Ens.Store
 
 namespace Drv.C15
 
-def handle (op : String) (_req : Json) : Except String Json :=
-  throw s!"bad-op C15.{op}"
+def errStr : Err → String
+  | .valueError => "value-error"
+  | .noSuchNode => "no-such-node"
+  | .dataInvalid => "data-invalid"
+  | .indexError => "index-error"
+  | .improperlyConfigured => "improperly-configured"
+  | .badSchedule => "bad-schedule"
+
+def getName (j : Json) : Except String Store.Name := do
+  let s ← getStr j
+  pure s.toList
+
+def nameJson (n : Store.Name) : Json := Json.str (String.ofList n)
+
+/-- entries travel as non-negative integers (the bytes of one entry along the first axis) -/
+def getNode' (j : Json) : Except String (Store.Name × Node Nat) := do
+  let nm ← getName (← field j "name")
+  let dt ← getStr (← field j "dtype")
+  let inner ← getList getNat (← field j "inner")
+  let data ← getList getNat (← field j "data")
+  pure (nm, { dtype := dt, inner := inner, data := data })
+
+def getKeys (req : Json) : Except String Keys :=
+  match fieldOpt req "keys" with
+  | none => pure .all
+  | some j => do
+    let ks ← getList getName j
+    pure (.list ks)
+
+def loadedJson (r : Loaded Nat) : Json :=
+  Json.mkObj [
+    ("plain", Json.bool r.isPlain),
+    ("dtype", Json.str r.dtype),
+    ("inner", listJson natJson r.inner),
+    ("rows", listJson (listJson natJson) r.rows),
+    ("lengths", listJson natJson r.lengths)]
+
+def getSpec (j : Json) : Except String (FileSpec Nat) := do
+  let n ← getNat (← field j "n_frames")
+  let s ← getNat (← field j "stride")
+  let hf ← getBool (← field j "has_frame")
+  let ld ← getList getNat (← field j "loaded")
+  pure { nFrames := n, stride := s, hasFrame := hf, loaded := ld }
+
+def handle (op : String) (req : Json) : Except String Json := do
+  match op with
+  | "keyname" =>
+    let tag ← getName (← field req "tag")
+    let i ← getNat (← field req "i")
+    let n ← getNat (← field req "nrows")
+    pure (okJson (nameJson (keyName tag i n)))
+  | "listing" =>
+    let ns ← getList getName (← field req "names")
+    pure (okJson (listJson nameJson (listNodes ns)))
+  | "stride" =>
+    let n ← getNat (← field req "n")
+    let s ← getNat (← field req "s")
+    if s = 0 then pure (errJson "value-error") else
+    pure (okJson (Json.mkObj [("sel", listJson natJson (strideSel s (List.range n))),
+                              ("len", natJson (ceilDiv n s))]))
+  | "sound" =>
+    let n ← getNat (← field req "n")
+    let s ← getNat (← field req "s")
+    match soundTrajectory n s with
+    | .error e => pure (errJson (errStr e))
+    | .ok v => pure (okJson (natJson v))
+  | "saveload" =>
+    -- save an input, then load it back with the given keys / stride
+    let tag ← getName (← field req "tag")
+    let kind ← getStr (← field req "kind")
+    let dt ← getStr (← field req "dtype")
+    let inner ← getList getNat (← field req "inner")
+    let inp : Input Nat ← match kind with
+      | "ragged" => do
+          let rows ← getList (getList getNat) (← field req "rows")
+          pure (Input.ragged dt inner rows)
+      | "ndarray" => do
+          let data ← getList getNat (← field req "data")
+          pure (Input.ndarray dt inner data)
+      | _ => throw s!"bad kind {kind}"
+    let keys ← getKeys req
+    let stride ← getNat (← field req "stride")
+    match save tag inp with
+    | .error e => pure (Json.mkObj [("error", Json.str (errStr e)), ("stage", Json.str "save")])
+    | .ok f =>
+      let created := listJson nameJson (names f)
+      let listed := listJson nameJson (listNodes (names f))
+      match load f keys stride with
+      | .error e => pure (Json.mkObj [("error", Json.str (errStr e)), ("stage", Json.str "load"),
+                                      ("created", created), ("listed", listed)])
+      | .ok r => pure (okJson (Json.mkObj [("created", created), ("listed", listed), ("result", loadedJson r)]))
+  | "loadfile" =>
+    -- load from an arbitrary file (nodes in creation order)
+    let nodes ← getList getNode' (← field req "nodes")
+    let keys ← getKeys req
+    let stride ← getNat (← field req "stride")
+    match load nodes keys stride with
+    | .error e => pure (errJson (errStr e))
+    | .ok r => pure (okJson (loadedJson r))
+  | "concat" =>
+    let specs ← getList getSpec (← field req "specs")
+    let hint ← match fieldOpt req "hint" with
+      | none => pure none
+      | some j => do let l ← getList getNat j; pure (some l)
+    let order ← getList getNat (← field req "order")
+    if !(order.isPerm (List.range specs.length)) then throw "order is not a permutation of the tasks"
+    match loadAsConcatenated specs hint order (fun _ => 0) with
+    | .error e => pure (errJson (errStr e))
+    | .ok (ls, xyz) => pure (okJson (Json.mkObj [("lengths", listJson natJson ls), ("xyz", listJson natJson xyz)]))
+  | _ => throw s!"bad-op C15.{op}"
 
 end Drv.C15
